@@ -22,6 +22,7 @@ func init() {
 			"R5": "signals carry the validated index",
 			"R6": "auto-next on round close; state channel closed once on game close",
 			"R7": "response timeout wiring",
+			"R8": "state propagation: the hand keeps and queues a clone of every new state unless closed; the consumer dispatches it; the dispatcher runs the event handler and then the engine hook; the hook (registered before Start) stores the state in the table, runs settle → continue on game-closed and publishes game-updated otherwise",
 		},
 		Assumptions: []string{"pokerface emits the request events; syncsaga completes when all added participants are ready"},
 		Run:         checkC11,
@@ -31,6 +32,8 @@ func init() {
 
 func checkC11(c *Ctx) {
 	p := c.P
+	// R8: every new hand state travels hand → queue → dispatcher → engine hook → table and is published
+	checkUpdateHook(c, "R8", "register", "store", "dispatch", "publish", "pump")
 	gt := p.singleImpl("", "Game")
 	if gt == nil {
 		c.Bad("R1", "anchors", "-", "hand implementation not found")
